@@ -108,6 +108,17 @@ func c14(c *Ctx) {
 		}
 		c.Expect(ok, nil, ig, "goaway-makes-writer-draining", "an incoming GOAWAY does not put the client's writer into draining mode")
 	})
+	c.Ob("transport-mutex", "R4", "client and server transport state behind t.mu (connection state, the stream table, GOAWAY bookkeeping, id counters) is accessed only with the mutex held, and the mutex is balanced: released on every exit, never re-acquired while held, never released without having been acquired", 20, func() {
+		c.GuardedBy(GuardSpec{Label: "http2Client", Mu: cl("mu"),
+			Fields: []*types.Var{cl("state"), cl("activeStreams"), cl("goAwayReason"), cl("goAwayDebugMessage"), cl("goAwayCode"), cl("kpDormant")},
+			Scope:  c.scope(tr),
+			Locked: map[string]bool{"internal/transport.http2Client.setGoAwayReason": true},
+			Exempt: map[string]string{"internal/transport.NewHTTP2Client": "construction: the transport is not yet shared"}})
+		c.GuardedBy(GuardSpec{Label: "http2Server", Mu: sv("mu"),
+			Fields: []*types.Var{sv("state"), sv("activeStreams"), sv("idle")},
+			Scope:  c.scope(tr),
+			Exempt: map[string]string{"internal/transport.NewServerTransport": "construction: the transport is not yet shared"}})
+	})
 	c.Ob("unprocessed-writers", "R1", "a client stream is marked unprocessed only in the stream-creation cleanup (never sent), on RST_STREAM(REFUSED_STREAM) and on GOAWAY", 3, func() {
 		allowed := map[string]bool{"internal/transport.http2Client.NewStream": true, "internal/transport.http2Client.handleRSTStream": true, "internal/transport.http2Client.handleGoAway": true}
 		n := 0
